@@ -117,6 +117,13 @@ Pos(k, path, nav, i) ==
                                                        IF nav \in FromEnd
                                                          THEN <<i + 1, i + 1>>                                         \* rend() - (i + 1)
                                                          ELSE <<Len(A[k]) - (n - 1 - i), Len(B[k]) - (n - 1 - i)>>     \* rbegin() + (n - 1 - i)
+\* the same for a container whose storages have the lengths la, lb (the sibling container of the cross-container assignments)
+PosL(la, lb, path, nav, i) ==
+    CASE path \in {"index", "cindex", "at", "cat"}  -> <<i + 1, i + 1>>
+      [] path \in {"front", "cfront"}               -> <<1, 1>>
+      [] path \in {"back", "cback"}                 -> <<la, lb>>
+      [] path \in {"iter", "citer"}                 -> IF nav \in FromEnd THEN <<la - (la - i) + 1, lb - (la - i) + 1>> ELSE <<i + 1, i + 1>>
+      [] path \in {"riter", "criter"}               -> IF nav \in FromEnd THEN <<i + 1, i + 1>> ELSE <<la - (la - 1 - i), lb - (la - 1 - i)>>
 PosOK(k, p) == p[1] >= 1 /\ p[1] <= Len(A[k]) /\ p[2] >= 1 /\ p[2] <= Len(B[k])
 PathOK(k, path, nav, i) ==
     /\ i < Size(k)
@@ -159,6 +166,35 @@ Write(k, path, nav, i, wk, e, j) ==
           /\ LET np == NewPair(<<A[k][p[1]], B[k][p[2]]>>, wk, e, <<A[k][q[1]], B[k][q[2]]>>) IN
                Do("Write", k, [path |-> path, nav |-> nav, i |-> i, wk |-> wk, e |-> e, j |-> j],
                   [A[k] EXCEPT ![p[1]] = np[1]], [B[k] EXCEPT ![p[2]] = np[2]], Void)
+\* resize(n, proxy): the proxy is reference(m_values[p1], m_flags[p2]) of container s (s = k: of the container being resized); each
+\* storage is resized with the component the proxy refers to (std::vector::resize copes with an argument inside the vector; the flag of
+\* a bitset is passed by value)
+ResizeFrom(k, n, s, spath, snav, j) ==
+    /\ IsVec /\ spath \in ReadPaths /\ PathOK(s, spath, snav, j)
+    /\ LET p == Pos(s, spath, snav, j) IN
+         /\ PosOK(s, p)
+         /\ Do("ResizeFrom", k, [n |-> n, s |-> s, path |-> spath, nav |-> snav, j |-> j],
+               VecResize(A[k], n, A[s][p[1]]), VecResize(B[k], n, B[s][p[2]]), Void)
+CtorFrom(k, n, spath, snav, j) ==
+    /\ SizeOK(n) /\ spath \in ReadPaths /\ PathOK(Other(k), spath, snav, j)
+    /\ LET o == Other(k)  p == Pos(o, spath, snav, j) IN
+         /\ PosOK(o, p)
+         /\ Do("CtorFrom", k, [n |-> n, path |-> spath, nav |-> snav, j |-> j], MakeA(n, A[o][p[1]]), MakeB(n, B[o][p[2]]), Void)
+\* dst-proxy = src-proxy of the sibling container F (two storages of their own: pad zeros followed by a copy of each storage of the
+\* other object): the value reference is assigned from F's value storage, the flag / imaginary reference from F's second storage
+XAssign(k, path, nav, i, pad, spath, snav, j, mv) ==
+    /\ HasAssign /\ path \in WritePaths /\ PathOK(k, path, nav, i) /\ (~IsVec => pad = 0)
+    /\ LET o == Other(k)
+           FA == Fill(pad, 0) \o A[o]
+           FB == Fill(pad, 0) \o B[o]
+           p == Pos(k, path, nav, i)
+           q == PosL(Len(FA), Len(FB), spath, snav, pad + j)
+       IN /\ spath \in ReadPaths /\ j < Size(o) /\ pad + j < Len(FA)
+          /\ (spath \in {"front", "cfront"} => pad + j = 0) /\ (spath \in {"back", "cback"} => pad + j = Len(FA) - 1)
+          /\ (IF spath \in IterPaths THEN snav \in Navs ELSE snav = "na") /\ (spath \in {"iter", "citer"} => HasFwd)
+          /\ PosOK(k, p) /\ q[1] >= 1 /\ q[1] <= Len(FA) /\ q[2] >= 1 /\ q[2] <= Len(FB)
+          /\ Do("XAssign", k, [path |-> path, nav |-> nav, i |-> i, pad |-> pad, spath |-> spath, snav |-> snav, j |-> j, mv |-> mv],
+                [A[k] EXCEPT ![p[1]] = FA[q[1]]], [B[k] EXCEPT ![p[2]] = FB[q[2]]], Void)
 WriteUnder(k, which, i, x) ==
     /\ which \in {"a", "b"} /\ i < Size(k) /\ i < Len(B[k])
     /\ Do("WriteUnder", k, [which |-> which, i |-> i, x |-> x],
@@ -207,6 +243,11 @@ NextK(k) ==
           /\ (wk \in {"a", "scalar", "addeq", "muleq"} => e[2] = 0) /\ (wk = "b" => e[1] = 0)
           /\ (wk \in {"addeq", "muleq", "addpair"} => NewPair(<<A[k][i + 1], B[k][i + 1]>>, wk, e, <<0, 0>>) \in Elems)
           /\ Write(k, path, nav, i, wk, e, j)
+    \/ \E n \in Sizes, s \in {1, 2}, spath \in ReadPaths : \E j \in Idx(s), snav \in NavsOf(spath) : ResizeFrom(k, n, s, spath, snav, j)
+    \/ \E n \in Sizes, spath \in {"index", "cback", "iter", "criter"} : \E j \in Idx(Other(k)), snav \in NavsOf(spath) : CtorFrom(k, n, spath, snav, j)
+    \/ \E i \in Idx(k), j \in Idx(Other(k)), pad \in (IF IsVec THEN {0, 2} ELSE {0}) :
+          \/ \E path \in WritePaths : \E nav \in NavsOf(path) : XAssign(k, path, nav, i, pad, "index", "na", j, 0)
+          \/ \E spath \in ReadPaths : \E snav \in NavsOf(spath) : XAssign(k, "index", "na", i, pad, spath, snav, j, 1)
     \/ \E which \in {"a", "b"}, i \in Idx(k), x \in Vals : (which = "b" => x \in BDom) /\ WriteUnder(k, which, i, x)
     \/ \E which \in {"a", "b"} : Extract(k, which)
     \/ \E path \in IterPaths, i \in 0..Size(k), j \in 0..Size(k) : IterRel(k, path, i, j)
@@ -251,5 +292,8 @@ StepRefines == LET k == last'.k  a == last'.a  o == last'.op IN
     \/ o = "IterRel"     /\ L1!IterRel(k, a.path, a.i, a.j)
     \/ o = "ProxySwap"   /\ L1!ProxySwap(k, a.i, a.j, AbsObj'[k][a.i + 1], AbsObj'[k][a.j + 1])
     \/ o = "MaxSize"     /\ L1!MaxSize(k, last'.res.val[1])
+    \/ o = "ResizeFrom"  /\ L1!ResizeFrom(k, a.n, a.s, a.path, a.nav, a.j)
+    \/ o = "CtorFrom"    /\ L1!CtorFrom(k, a.n, a.path, a.nav, a.j)
+    \/ o = "XAssign"     /\ L1!XAssign(k, a.path, a.nav, a.i, a.pad, a.spath, a.snav, a.j, a.mv)
 Refines == [][StepRefines]_ivars
 =============================================================================
